@@ -665,6 +665,17 @@ def run_unit(unit, tier):
                         osp, _ = obstacle_spec(role, sn, cls, t0, n, shift, gap)
                         check_exact(osp, tag, res)
                         res.states += 1
+        if role == "dynamic-traj" and cls not in ("PMState", "CustomPM"):      # (a point-mass state at rest has no heading)
+            # standing and turning on the spot: consecutive states share the position, the later ones have velocity 0 and another heading
+            for shift in range(len(POSES)):
+                x, y, th = POSES[shift]
+                x2, y2, th2 = POSES[(shift + 3) % len(POSES)]
+                w = lambda a: a - 2 * math.pi if a > 2 * math.pi else (a + 2 * math.pi if a < -2 * math.pi else a)
+                seq = [(x, y, th, 3.0), (x, y, w(th + 0.8), 0.0), (x, y, w(th - 1.1), 0.0), (x2, y2, th2, 3.0), (x2, y2, w(th2 + 0.5), 0.0)]
+                osp = {"role": "dynamic", "id": 65, "type": "CAR", "shape": SHAPES[sn], "initial_state": spec.init_state(x=x - 1.0, y=y, o=th, t=0),
+                       "prediction": {"k": "trajectory", "t0": 1, "shape": SHAPES[sn], "states": [traj_state(cls, 1 + i, px, py, pth, speed=v) for i, (px, py, pth, v) in enumerate(seq)]}}
+                check_exact(osp, f"{role}|{sn}|{cls or '-'}|standing-turn", res)
+                res.states += 1
         res.sample({"k": "exact", "role": role, "shape": sn, "cls": cls}, 1)
     elif k == "reached":
         check_reached(unit["role"], unit["shape"], res)
